@@ -13,7 +13,7 @@ def expected_dumps(M, L, vals, size):
     cur = M.dump_message(L, vals, with_consts=False, comp_consts=True)
     vis = M.dump_message(L, vals, with_consts=False, comp_consts=False)
     tail = "cursor_end=%d" % size
-    return {"ra": ra, "cur": (cur + " " + tail).strip(), "vis": (vis + " " + tail).strip()}
+    return {"ra": ra, "cur": (cur + " " + tail + " cursor_size=%d" % size).strip(), "vis": (vis + " " + tail).strip()}
 
 
 def first_diff(a, b):
@@ -31,7 +31,7 @@ def cursor_end_checkable(L):
 
 
 def strip_cursor_end(s):
-    return " ".join(t for t in s.split(" ") if not t.startswith("cursor_end="))
+    return " ".join(t for t in s.split(" ") if not t.startswith("cursor_end=") and not t.startswith("cursor_size="))
 
 
 def check_dump(pc, entry, mi, L, vals, img, size, modes, inflated):
